@@ -18,6 +18,13 @@ Oracle: models/positions.py (own scanner, own line arithmetic).  Obligations per
     an inner node spans first token start .. last token end of the leaves under it;
     get_orig_text(node) == slice of the text between the node's positions (== lexeme for a leaf)
   * after the default cleanup every surviving node still has the span it had before
+Sequences: every ordered pair (t1, t2) of the text pool (all texts of <= 2 pieces over six pieces plus ten
+longer ones: unclosed spans, closers without opener, unmatched characters, spans closing on the same / a later
+line, texts a grammar rejects) on ONE freshly constructed parser object, (a) t1 parsed (errors caught by the
+caller) then t2 judged, (b) a token generator over t1 advanced by one token and left suspended while t2 is
+judged, then resumed.  Obligation: t2 is handled exactly as t2 alone; the resumed generator delivers t1's tokens.
+Every reported case is self-contained: a violation seen on re-used objects of the single-text space is re-run
+on freshly constructed ones and reported from there (or as a recorded sequence of texts).
 Trailing blanks of a line: the statement does not say whether they are tokenized (the code strips them
 for ``str`` input and keeps them for a list of lines); both behaviours are accepted for both forms.
 """
@@ -40,8 +47,9 @@ LEVEL_NOTE = ("Small-scope: texts longer than the piece bound, other token patte
               "are not covered. Trusted: the hand-written scanner and line arithmetic in "
               "models/positions.py; the tree walk takes the tree's shape from the real parser (only "
               "positions are judged here, derivations belong to C01).")
-RULE = ("case = one (text, input form, tokenizer configuration); texts are distinct piece sequences of a "
-        "prefix code. Non-trivial: lexically valid text in which a token is the first of a line after "
+RULE = ("case = one (text, input form, tokenizer configuration) — texts are distinct piece sequences of a "
+        "uniquely decodable code — or one ordered pair of pool texts handled by one freshly constructed "
+        "parser object (non-trivial unless the first text is a valid text without span token). Non-trivial: lexically valid text in which a token is the first of a line after "
         "line 1, or a skipped token (blanks/comment) or a span token occurs, or the unmatched character "
         "is on a line after line 1.")
 ASSUMPTIONS = [
@@ -65,6 +73,11 @@ REQUIRED_FEATURES = [
     "exotic-line-break:in-span-token", "exotic-line-break:in-string-token", "exotic-line-break:token-follows",
     "tree:list-template",
     "tree:sequence-template", "tree:factorized",
+    "sequence:first:unclosed-span", "sequence:first:unmatched-character", "sequence:first:valid-text",
+    "sequence:first:valid-text-with-span", "sequence:first:rejected-by-a-grammar",
+    "sequence:second:valid-text", "sequence:second:valid-text-with-span", "sequence:second:unclosed-span",
+    "sequence:second:unmatched-character", "sequence:mode:parse-then-parse", "sequence:mode:interleaved",
+    "sequence:generator-suspended",
 ]
 
 # "\x0c" (form feed) and "\u2028" (line separator) are line boundaries for str.splitlines() but not for the
@@ -93,6 +106,8 @@ def bounds(tier):
                         "restriction": "contains a piece beyond the basic ten" if a == "full" else None}
                        for a, _, lo, hi in t["spaces"]],
             "forms": list(t["forms"]), "configs": sorted(P.CONFIGS),
+            "sequences": {"pool_texts": len(seq_pool()), "ordered_pairs": len(seq_pool()) ** 2,
+                          "modes": list(SEQ_MODES), "configs": list(SEQ_CFGS), "grammars": sorted(SEQ_GRAMMARS)},
             "grammars": [g[0] for g in grammar_specs(P.CONFIGS["iii"])]}
 
 
@@ -104,6 +119,8 @@ def shards(tier):
         if lo < plen:                   # the texts shorter than the shard prefix of this space
             sh.append(("upto", alpha, lo, plen - 1))
         sh += [("pfx", alpha, pfx, max(lo, plen), hi) for pfx in itertools.product(range(k), repeat=plen)]
+    # sequences of two texts on one freshly constructed parser object: all ordered pairs over seq_pool()
+    sh += [("seq", cfg_name, mode, i) for cfg_name in SEQ_CFGS for mode in SEQ_MODES for i in range(len(seq_pool()))]
     return sh
 
 
@@ -197,20 +214,6 @@ def grammar_specs(cfg):
             ("sequence-template", g_seq, {}), ("empty-around", g_only_empty, {})]
 
 
-_PARSERS = {}
-
-
-def parsers(cfg_name):
-    got = _PARSERS.get(cfg_name)
-    if got is None:
-        cfg = P.CONFIGS[cfg_name]
-        got = []
-        for name, fac, kw in grammar_specs(cfg):
-            got.append((name, impl.LLParser(cfg.tokenizer_str, productions=fac(), **cfg.real_kwargs(), **kw)))
-        _PARSERS[cfg_name] = got
-    return got
-
-
 # ------------------------------------------------------------------------------------ judging
 class Viol(Exception):
     def __init__(self, sig, msg, obs, exp):
@@ -254,7 +257,7 @@ def _compare_tokens(actual, ref):
     return None
 
 
-def judge_tokens(parser, cfg, inp, lines, tx, feats):
+def judge_tokens(tokenize, cfg, inp, lines, tx, feats):
     """-> ('ok', Scan, end_pos) | ('lexerr',) | ('unclosed', label); raises Viol."""
     raw = P.scan(lines, cfg)
     stripped_lines = P.strip_lines(lines)
@@ -270,7 +273,7 @@ def judge_tokens(parser, cfg, inp, lines, tx, feats):
     elif ref0.status == "unclosed":
         feats.add("unclosed-span")
     try:
-        toks = list(parser.tokenizer.tokenize(inp, "t"))
+        toks = list(tokenize(inp, "t"))
         err = None
     except impl.LexicalError as e:
         toks, err = None, e
@@ -428,6 +431,10 @@ def judge_tree(gname, parser, inp, tx, scan, endpos, feats, acc):
         root = parser.parse(inp, do_cleanup=False)
     except impl.ParsingError:
         return "rejected"
+    except impl.LexicalError as e:
+        # the token list of this text was judged before: every character is matched, every span closed
+        raise Viol("spurious-lexical-error", "parse() raised LexicalError for a text every character of which "
+                   "is matched", str(e)[:120], "a tree or ParsingError")
     toks = scan.tokens
     R = [t for t in toks if not t.skipped]
     skipped_before = set()
@@ -469,12 +476,55 @@ def judge_tree(gname, parser, inp, tx, scan, endpos, feats, acc):
     return "parsed"
 
 
-def run_case(text, form, cfg_name, acc, only_grammar=None, report=True):
-    """One (text, form, config).  Returns the list of violations (sig, case, msg, obs, exp)."""
+# ------------------------------------------------------------------------------------ objects under test
+class World:
+    """The objects one case (or one sequence of texts) runs on: a tokenizer and one parser per grammar.
+
+    The single-text space re-uses a world for many texts (construction of ten parsers costs 4 ms); to
+    keep every *reported* case self-contained a violation seen on a re-used world is re-run on a fresh
+    world before it is reported (run_case), and the stand-alone tokenizer is thrown away after every
+    tokenization that ended with an exception."""
+
+    def __init__(self, cfg_name, grammars=None):
+        self.cfg_name = cfg_name
+        cfg = P.CONFIGS[cfg_name]
+        self.parsers = []
+        for name, fac, kw in grammar_specs(cfg):
+            if grammars is not None and name not in grammars:
+                continue
+            self.parsers.append((name, impl.LLParser(cfg.tokenizer_str, productions=fac(),
+                                                     **cfg.real_kwargs(), **kw)))
+        self._tokenizer = None
+        self.history = []               # texts given to this world so far (most recent last)
+
+    def tokenize(self, inp, src_name):
+        """Stand-alone tokenizer (the class the parser itself uses), fresh after every failed run."""
+        if self._tokenizer is None:
+            cfg = P.CONFIGS[self.cfg_name]
+            self._tokenizer = impl._Tokenizer(cfg.tokenizer_str, **cfg.real_kwargs())
+        try:
+            yield from self._tokenizer.tokenize(inp, src_name)
+        except BaseException:
+            self._tokenizer = None
+            raise
+
+
+_WORLDS = {}
+
+
+def shared_world(cfg_name):
+    w = _WORLDS.get(cfg_name)
+    if w is None or len(w.history) >= 4096:
+        w = _WORLDS[cfg_name] = World(cfg_name)
+    return w
+
+
+def judge_text(world, tokenize, text, form, acc, only_grammar=None):
+    """Judge one text on the given objects.  -> (violations, features, outcome)."""
+    cfg_name = world.cfg_name
     cfg = P.CONFIGS[cfg_name]
     inp, lines = _mk_input(text, form)
     tx = P.Text(lines)
-    plist = parsers(cfg_name)
     case = {"text": text, "form": form, "cfg": cfg_name}
     feats = {"input:" + form, "cfg:" + cfg_name, "lines:one" if len(lines) == 1 else "lines:many"}
     if any(l and P.is_space(l[-1]) for l in lines):
@@ -482,28 +532,22 @@ def run_case(text, form, cfg_name, acc, only_grammar=None, report=True):
     viols = []
     acc.trans()
     outcome = None
-    nontrivial = False
     try:
-        res = judge_tokens(plist[0][1], cfg, inp, lines, tx, feats)
+        res = judge_tokens(tokenize, cfg, inp, lines, tx, feats)
     except Viol as v:
         viols.append(("C04:" + v.sig, case, v.msg, v.obs, v.exp))
         res = None
         outcome = v.sig
     if res is not None:
         if res[0] == "lexerr":
-            feats.add("lexical-error")
-            if res[1].error_line > 1:
-                feats.add("lexical-error:line>1")
-                nontrivial = True
             outcome = "lexical-error"
         elif res[0] == "unclosed":
-            feats.add("unclosed-span")
             outcome = "unclosed-span:" + res[1]
         else:
             scan, endpos = res[1], res[2]
             feats |= scan.feats
             labels = []
-            for gname, parser in plist:
+            for gname, parser in world.parsers:
                 if only_grammar is not None and gname != only_grammar:
                     continue
                 try:
@@ -518,22 +562,190 @@ def run_case(text, form, cfg_name, acc, only_grammar=None, report=True):
             bad = [l for l in labels if l not in ("parsed", "rejected")]
             if bad:
                 outcome = bad[0]
-    if "lexical-error" not in feats and "unclosed-span" not in feats:
-        # measured on the reference scan, so the count does not depend on what the code under test does
-        nontrivial = "skipped-token" in feats or any(f.startswith("line>1:") for f in feats)
+    return viols, feats, outcome
+
+
+def _nontrivial(feats):
+    # measured on the reference scan, so the count does not depend on what the code under test does
+    if "lexical-error" in feats:
+        return "lexical-error:line>1" in feats
+    if "unclosed-span" in feats:
+        return False
+    return "skipped-token" in feats or any(f.startswith("line>1:") for f in feats)
+
+
+def run_case(text, form, cfg_name, acc, only_grammar=None, fresh=False):
+    """One (text, form, config) of the single-text space."""
+    world = World(cfg_name, None if only_grammar is None else {only_grammar}) if fresh else shared_world(cfg_name)
+    viols, feats, outcome = judge_text(world, world.tokenize, text, form, acc, only_grammar)
+    prev = world.history[-8:]
+    world.history.append([text, form])
+    if viols and not fresh:
+        # report only what a freshly constructed parser/tokenizer shows as well (self-contained case)
+        fw = World(cfg_name)
+        fv, _, _ = judge_text(fw, fw.tokenize, text, form, acc, only_grammar)
+        if {v[0] for v in fv} != {v[0] for v in viols}:
+            acc.feat("single-text:result-depended-on-earlier-texts")
+            hist = _attribute_history(cfg_name, prev, text, form, {v[0] for v in viols}, acc)
+            sig, c, msg, obs, exp = viols[0]
+            viols = list(fv)
+            if hist is not None:
+                viols.append(("C04:sequence:result-depends-on-earlier-texts",
+                              {"cfg": cfg_name, "steps": [["parse", t, f] for t, f in hist] + [["judge", text, form]]},
+                              "on a parser that parsed other texts before: " + msg, obs, exp))
+            _WORLDS.pop(cfg_name, None)
+    acc.case(nontrivial=_nontrivial(feats), features=sorted(feats), outcome=outcome)
+    seen = set()
+    for sig, c, msg, obs, exp in viols:
+        if sig in seen:
+            continue          # one report per class and case is enough
+        seen.add(sig)
+        acc.violation(sig, c, msg, obs, exp)
+    return viols
+
+
+def _attribute_history(cfg_name, prev, text, form, sigs, acc):
+    """Shortest suffix of the recent history that, replayed on fresh objects, reproduces the violation."""
+    for n in (1, 2, 8):
+        hist = prev[-n:]
+        w = World(cfg_name)
+        for t, f in hist:
+            _apply_step(w, "parse", t, f)
+        v, _, _ = judge_text(w, w.tokenize, text, form, acc)
+        if {x[0] for x in v} & sigs:
+            return hist
+    return None
+
+
+# ------------------------------------------------------------------------------------ sequences of texts
+# Texts for the sequences on ONE parser object: everything of <= 2 pieces over SEQ_PIECES (unclosed spans,
+# closers without opener, unmatched characters, blank texts ...) plus longer texts with spans closing on the
+# same / a later line, an error behind a closed span, a text some grammars reject.
+SEQ_PIECES = ["ab", "\n", "/*", "*/", "#", " "]
+SEQ_EXTRA = ["ab /*\n*/ c", "/* x\n", "ab\n/*\nc", "c */ ab", "ab #", "/**/ #", "+ +", "ab +\nc", "/* c */ab",
+             "ab\n #"]
+SEQ_GRAMMARS = {"trailing-opt", "sequence-template", "list-template"}
+SEQ_MODES = ("parse-then-parse", "interleaved")
+SEQ_CFGS = ("iii", "i")
+
+
+def seq_pool():
+    pool = [""] + list(SEQ_PIECES) + [a + b for a in SEQ_PIECES for b in SEQ_PIECES]
+    for t in SEQ_EXTRA:
+        if t not in pool:
+            pool.append(t)
+    return pool
+
+
+def _apply_step(world, op, text, form):
+    """A step whose result is not judged: the caller catches what the library raises.  -> label"""
+    inp, _ = _mk_input(text, form)
+    labels = []
+    if op == "parse":
+        for _, parser in world.parsers:
+            try:
+                parser.parse(inp)
+                labels.append("parsed")
+            except impl.Error as e:
+                labels.append(type(e).__name__)
+        try:
+            list(world.tokenize(inp, "t"))
+        except impl.Error:
+            pass
+    world.history.append([text, form])
+    return labels
+
+
+def _kind_of(text, cfg):
+    r = P.scan(text.split("\n"), cfg)
+    if r.status == "unclosed":
+        return "unclosed-span"
+    if r.status == "lexerr":
+        return "unmatched-character"
+    return "valid-text-with-span" if any(t.is_span for t in r.tokens) else "valid-text"
+
+
+def run_sequence(cfg_name, mode, t1, t2, acc, report=True):
+    """(t1, t2) on one freshly constructed world; the result for t2 must be what t2 alone gives (= what the
+    reference says about t2).  mode 'interleaved': a token generator over t1 is advanced by one token and
+    left suspended while t2 is judged, then resumed: the remaining tokens of t1 must be the reference's."""
+    cfg = P.CONFIGS[cfg_name]
+    world = World(cfg_name, SEQ_GRAMMARS)
+    k1, k2 = _kind_of(t1, cfg), _kind_of(t2, cfg)
+    feats = {"sequence", "sequence:mode:" + mode, "sequence:cfg:" + cfg_name, "sequence:first:" + k1,
+             "sequence:second:" + k2}
+    viols = []
+    case = {"cfg": cfg_name, "mode": mode, "texts": [t1, t2]}
+    gen = None
+    got1 = []
+    if mode == "parse-then-parse":
+        labels = _apply_step(world, "parse", t1, "str")
+        if k1.startswith("valid") and "ParsingError" in labels:
+            feats.add("sequence:first:rejected-by-a-grammar")
+    else:
+        # the very tokenizer object of the first parser: the same object then parses t2
+        gen = world.parsers[0][1].tokenizer.tokenize(t1, "t")
+        try:
+            got1.append(next(gen))
+            feats.add("sequence:generator-suspended")
+        except (StopIteration, impl.Error):
+            gen = None
+    outcome = "second-text-as-alone"
+    for form in ("str", "list"):
+        tokenize = world.parsers[0][1].tokenizer.tokenize
+        v, _, _ = judge_text(world, tokenize, t2, form, acc)
+        if v:
+            alone = World(cfg_name, SEQ_GRAMMARS)
+            va, _, _ = judge_text(alone, alone.parsers[0][1].tokenizer.tokenize, t2, form, acc)
+            if {x[0] for x in va} == {x[0] for x in v}:
+                outcome = "second-text-violates-alone"      # reported by the single-text space
+                continue
+            sig, c, msg, obs, exp = v[0]
+            after = "a-suspended-token-generator" if mode == "interleaved" else k1
+            viols.append(("C04:sequence:second-text-differs-after-" + after, dict(case, form=form),
+                          f"after {after.replace('-', ' ')} on the same parser object the second text is not "
+                          f"handled as it is alone: [{sig}] {msg}", obs, exp))
+            outcome = "second-text-differs"
+            break
+    if gen is not None and not viols:
+        # resume the suspended generator: the tokens of t1 must still be t1's tokens
+        lines = t1.split("\n")
+        try:
+            got1.extend(gen)
+            err = None
+        except impl.LexicalError as e:
+            err = e
+        refs = [P.scan(P.strip_lines(lines), cfg), P.scan(lines, cfg)]
+        ok = False
+        for r in refs:
+            if r.status == "ok" and err is None and got1 and got1[-1].name == "$END$":
+                ok = ok or _compare_tokens(got1[:-1], r) is None
+            elif r.status != "ok" and err is not None:
+                ok = ok or _compare_tokens(got1, r) is None
+        if not ok:
+            viols.append(("C04:sequence:resumed-generator-differs", dict(case, form="str"),
+                          "a token generator that was suspended while another text was parsed does not "
+                          "deliver the tokens of its own text", [_tok_view(t) for t in got1][:8],
+                          [repr(t) for t in refs[0].tokens][:8]))
+            outcome = "resumed-generator-differs"
     if report:
-        acc.case(nontrivial=nontrivial, features=sorted(feats), outcome=outcome)
-        seen = set()
+        acc.case(nontrivial=(k1 != "valid-text"), features=sorted(feats), outcome=outcome)
         for sig, c, msg, obs, exp in viols:
-            if sig in seen:
-                continue          # one report per class and case is enough
-            seen.add(sig)
             acc.violation(sig, c, msg, obs, exp)
     return viols
 
 
 def run_shard(shard, tier, seed, acc):
     t = _TIERS[tier]
+    if shard[0] == "seq":
+        _, cfg_name, mode, i = shard
+        pool = seq_pool()
+        for t2 in pool:
+            run_sequence(cfg_name, mode, pool[i], t2, acc)
+        if i % 7 == 0:
+            acc.sample({"cfg": cfg_name, "mode": mode, "texts": [pool[i], pool[(i * 5 + 3) % len(pool)]]})
+        return
+    _WORLDS.clear()                     # a shard starts on freshly constructed objects
     n = 0
     for text in _texts(shard, tier):
         for form in t["forms"]:
@@ -548,7 +760,22 @@ def run_shard(shard, tier, seed, acc):
 
 
 def replay(case, acc):
-    run_case(case["text"], case["form"], case["cfg"], acc, only_grammar=case.get("grammar"))
+    if "texts" in case:
+        run_sequence(case["cfg"], case["mode"], case["texts"][0], case["texts"][1], acc)
+        return
+    if "steps" in case:                 # a recorded history on one world, the last step is judged
+        w = World(case["cfg"])
+        for op, text, form in case["steps"][:-1]:
+            _apply_step(w, op, text, form)
+        _, text, form = case["steps"][-1]
+        v, feats, outcome = judge_text(w, w.tokenize, text, form, acc)
+        acc.case(outcome=outcome)
+        if v:
+            sig, c, msg, obs, exp = v[0]
+            acc.violation("C04:sequence:result-depends-on-earlier-texts", case,
+                          "on a parser that parsed other texts before: " + msg, obs, exp)
+        return
+    run_case(case["text"], case["form"], case["cfg"], acc, only_grammar=case.get("grammar"), fresh=True)
 
 
 def selftest():
